@@ -4,6 +4,7 @@ import (
 	"flag"
 	"fmt"
 	"io"
+	"os"
 	"testing"
 	"testing/synctest"
 	"time"
@@ -97,6 +98,9 @@ func runInBubble(plan *Plan, ch *Choices, traceAll bool, res *Result) {
 	w := NewWorld(plan, ch)
 	s := w.Sim
 	s.TraceAll = traceAll
+	if v := os.Getenv("VERIF_STEPCAP"); v != "" {
+		fmt.Sscan(v, &s.StepCap)
+	}
 	epoch := time.Unix(plan.EpochUnix, 0)
 	w.Epoch = epoch
 	s.Epoch = epoch
